@@ -1,3 +1,5 @@
 pub mod combiner;
 pub mod dump;
 pub mod header;
+pub mod events;
+pub mod time;
